@@ -458,6 +458,10 @@ let run_tty u line =
            | _ -> None)
         else None) kv in
     let cfg = mk_config mode ct timeout_none cols helper (strs (get "cands" "")) (strs (get "hints" "")) vk binds in
+    (* Config settings other than the defaults mk_config fixes *)
+    let cfg = { cfg with c_tab_stop = nat_of_int (int_of_string (get "tab_stop" "8"));
+                         c_indent_size = nat_of_int (int_of_string (get "indent_size" "2"));
+                         c_prompt_limit = nat_of_int (int_of_string (get "prompt_limit" "100")) } in
     let prompt = parse_str (get "prompt" "-") in
     let initial = match get "initial" "" with
       | "" -> None
